@@ -119,7 +119,7 @@ PINNED = [("x86_64", "R_X86_64_8", 200), ("x86_64", "R_X86_64_16", 40000), ("x86
 def source(arch, name, mode, insn, addend, x):
     """Assembly for one relocation at `fld`, followed by a guard word."""
     data = {1: ".byte 0", 2: ".short 0", 4: ".long 0", 8: ".quad 0"}
-    flags = '"awx"' if insn else '"aw"'
+    flags = '"ax"' if insn else '"aw"'
     body = []
     if arch == "aarch64":
         body.append(".balign 4")
@@ -147,7 +147,7 @@ def linkers(arch):
     return ("ld", "lld", "wild") if arch == "x86_64" else ("lld", "wild")
 
 
-def do_link(ctx, arch, kind, obj, x, mode, tag):
+def do_link(ctx, arch, kind, obj, x, mode, tag, nread=8):
     d = ctx.scratch.dir("l", tag + "-" + kind)
     out = tools.fresh(os.path.join(d, "out"))
     args = (["-m", "aarch64elf"] if (kind == "wild" and arch == "aarch64") else []) + [obj, "-o", out, "--no-gc-sections"]
@@ -165,7 +165,7 @@ def do_link(ctx, arch, kind, obj, x, mode, tag):
     try:
         e = Elf(out)
         f = e.sym_by_name("fld")
-        b = e.read_va(f.value, 12) if f else None
+        b = e.read_va(f.value, nread) if f else None
     except Exception as ex:  # unreadable output of a successful link
         return ("bad-output", str(ex), cmd, r)
     if b is None:
@@ -191,7 +191,7 @@ class Calib:
                 return self.x0[key]
         src = make_source(arch, nbytes, name, mode, insn, 0, 0)
         obj = tools.assemble(ctx, src, target=A64 if arch == "aarch64" else None)
-        st, b, cmd, r = do_link(ctx, arch, kind, obj, 0, mode, f"cal-{name}")
+        st, b, cmd, r = do_link(ctx, arch, kind, obj, 0, mode, f"cal-{name}", nread=nbytes + 4)
         val = None
         if st == "accept":
             if insn:
@@ -264,7 +264,8 @@ def judge(ctx, calib, table, arch, name, nbytes, mode, insn, x, contradictions):
         except HarnessError:
             ctx.inconclusive("assembler rejected the generated relocation expression")
             return
-        res[kind] = do_link(ctx, arch, kind, obj, x, mode, f"{name}-{x & ((1 << 64) - 1):x}") + (src, obj)
+        res[kind] = do_link(ctx, arch, kind, obj, x, mode, f"{name}-{x & ((1 << 64) - 1):x}",
+                            nread=nbytes + 4) + (src, obj)
     refs = [k for k in linkers(arch) if k != "wild"]
     rst = [res[k][0] for k in refs]
     if any(s not in ("accept", "reject") for s in rst):
